@@ -3,7 +3,7 @@
 use crate::{
     Error, Result,
     compression::{compress, flags as compression_flags},
-    crypto::{encrypt_block, hash_string, hash_type, het_hash, jenkins_hash},
+    crypto::{encrypt_block, hash_string, hash_type, het_hash},
     header::{FormatVersion, MpqHeaderV4Data},
     special_files::{AttributeFlags, Attributes, FileAttributes},
     tables::{BetHeader, BlockEntry, BlockTable, HashEntry, HashTable, HetHeader, HiBlockTable},
@@ -2028,11 +2028,9 @@ impl ArchiveBuilder {
                 (100 * (processed_data.len() - compressed.len()) / processed_data.len())
             );
 
-            // Prepend compression type byte
-            let mut compressed_with_type = Vec::with_capacity(1 + compressed.len());
-            compressed_with_type.push(self.table_compression);
-            compressed_with_type.extend_from_slice(&compressed);
-            processed_data = compressed_with_type;
+            // `compress` already puts the compression type byte in front of the data,
+            // and hands the data back unchanged when compressing does not shrink it
+            processed_data = compressed;
         }
 
         // Encrypt the data portion (after extended header)
@@ -2175,15 +2173,15 @@ impl ArchiveBuilder {
                 // Write to file table
                 self.write_bit_entry(&mut file_table, i, entry_bits, table_entry_size)?;
 
-                // Generate BET hash (Jenkins one-at-a-time hash of filename)
-                // Note: BET uses Jenkins one-at-a-time, not hashlittle2 like HET
+                // Generate BET hash: the same hashlittle2 name hash HET is built from,
+                // which is what `BetTable::verify_file_hash` recomputes on lookup
                 let filename = if i < self.pending_files.len() {
                     &self.pending_files[i].archive_name
                 } else {
                     // This must be the attributes file
                     "(attributes)"
                 };
-                let hash = jenkins_hash(filename);
+                let (hash, _) = het_hash(filename, bet_hash_size);
                 bet_hashes.push(hash);
             }
         }
@@ -2275,11 +2273,9 @@ impl ArchiveBuilder {
                 (100 * (processed_data.len() - compressed.len()) / processed_data.len())
             );
 
-            // Prepend compression type byte
-            let mut compressed_with_type = Vec::with_capacity(1 + compressed.len());
-            compressed_with_type.push(self.table_compression);
-            compressed_with_type.extend_from_slice(&compressed);
-            processed_data = compressed_with_type;
+            // `compress` already puts the compression type byte in front of the data,
+            // and hands the data back unchanged when compressing does not shrink it
+            processed_data = compressed;
         }
 
         // Encrypt the data portion (after extended header)
